@@ -787,6 +787,9 @@ func init() {
 
 		// 6. compare (warm the children-by-tag cache), edit in place, compare with fresh copies
 		c07warmEdit(c)
+
+		// 7. deep trees: 8 .. 100 levels below the copied node
+		c07deep(c)
 		c.Notes = append(c.Notes,
 			"DATE values: "+fmt.Sprint(len(c07EdgeDates))+" edge values (zero / half-zero dates, year > 9999, leading zeros, long space runs) in every stream, "+fmt.Sprint(len(c07TameDates))+" on which DateRange.Equals is an equivalence, "+fmt.Sprint(len(c07WildDates))+" constraint-bearing (every 4th tree)",
 			"not covered: NodesWithTag cache staleness after DeleteNode/SetNodes (C13); role nodes whose family is not a record of the document")
